@@ -2,8 +2,9 @@
 // the B / H record path through dnsdata.Codec.ConvertLn, and an independent decode of
 // the emitted RDATA by miekg/dns.
 //
-// Every input is emitted twice: kind "wire" (acceptance, wire data, decoders, record row)
-// and kind "rt" (ToText of the stored list and FromText of that text).
+// Every accepted input is emitted twice: kind "wire" (acceptance, wire data, decoders, record
+// row) and kind "rt" (ToText of the stored list and FromText of that text); a rejected input
+// only as kind "wire".
 package main
 
 import (
@@ -335,6 +336,10 @@ type input struct {
 
 func runOne(in input, e *hlib.Emitter) {
 	for _, c := range observe(in) {
+		// a rejected input has nothing to print: its rt case would repeat the wire case
+		if c.Kind == "rt" && c.Ft != 0 {
+			continue
+		}
 		e.Emit(c)
 	}
 }
